@@ -30,7 +30,11 @@ let () =
         | "taglist" -> url_taglist p r
         | "upload" -> url_upload p r
         | _ -> failwith "kind" in
-      Printf.printf "%s URL %s\n" id (hex_of_str u)
+      let hx s = match s with [] -> "-" | _ -> hex_of_str s in
+      let ho o = match o with None -> "none" | Some s -> "some:" ^ hx s in
+      (match url_split u with
+       | Some p -> Printf.printf "%s URL %s SPLIT %s %s %s %s %s\n" id (hex_of_str u) (hx p.u_scheme) (hx p.u_authority) (hx p.u_path) (ho p.u_query) (ho p.u_fragment)
+       | None -> Printf.printf "%s URL %s NOSPLIT\n" id (hex_of_str u))
     | [id; "O"; op; plain; hr; hp; hs; hd] ->
       let o = match op with
         | "mresolve" -> OpMResolve | "mfetchref" -> OpMFetchRef | "tag" -> OpTag
